@@ -220,6 +220,10 @@ func (p Proxy) ServeHTTP(w http.ResponseWriter, r *http.Request) (int, error) {
 		attemptURL := origURL
 		outreq.URL = &attemptURL
 		outreq.Header = origHeader.Clone()
+		if _, ok := outreq.Header["User-Agent"]; !ok {
+			// keep net/http from making up a User-Agent the client never sent
+			outreq.Header.Set("User-Agent", "")
+		}
 
 		// a backend's name may contain more than just the host,
 		// so we parse it as a URL to try to isolate the host.
